@@ -286,12 +286,13 @@ def main(argv=None):
         'transitions': total.decisions,
         'traces_validated_against_impl': total.paths,
         'evaluations': total.paths,
-        'distinct_nontrivial': total.nontrivial_paths,
+        'distinct_nontrivial': total.notes.get('__nontrivial', total.nontrivial_paths),
         'rule': ("each evaluation is one path = one region of the symbolic input space, produced by the "
                  "real code's own branches (distinct by construction: their path conditions are mutually "
                  "exclusive); distinct_nontrivial counts the paths whose path condition contains at least one "
                  "solver-decided branch on a symbolic value or whose property was discharged by a solver query "
                  "(paths that differ only in enumerated discrete choices are not counted)"),
+        'rule_override': getattr(mod, 'NONTRIVIAL_RULE', None),
         'samples': rng_samples or [{'note': 'no completed path'}],
         'exhaustive': not inconclusive and not args.only,
         'paths_aborted_by_assumptions': total.aborted,
